@@ -76,6 +76,40 @@ impl Check for StepCheck {
                     cands.push(Cand { ops });
                     cx.stats.count("echo_candidates", 1);
                 }
+                // parser-path candidates again with every parameter zero-padded (1, 63, 64, 65 or
+                // 300 zeros): the call delivered must be the same (clause dispatch)
+                let n = cands.len();
+                for _ in 0..n.min(4) {
+                    let x = &cands[rng.usize(n)];
+                    if let [Op::Feed(f)] = &x.ops[..] {
+                        if let Some(p) = gen::pad_params(f, *rng.pick(&[1usize, 63, 64, 65, 300])) {
+                            cands.push(Cand { ops: vec![Op::Feed(p)] });
+                            cx.stats.count("zero_padded_candidates", 1);
+                        }
+                    }
+                }
+                // the cursor rendition made EQUAL to that of a cell the operation is about to
+                // touch (the cell under the cursor, its neighbours, another one in the row or the
+                // column): "already looks right" shortcuts key on exactly this coincidence
+                let n = cands.len();
+                for _ in 0..n.min(5) {
+                    let x = cands[rng.usize(n)].ops.clone();
+                    if x.len() > 6 {
+                        continue;
+                    }
+                    let (ty, tx) = match rng.below(4) {
+                        0 => (pre.cy, pre.cx.min(c - 1)),
+                        1 => (pre.cy, (pre.cx + 1).min(c - 1)),
+                        2 => (pre.cy, rng.below(c as u64) as u32),
+                        _ => (rng.below(l as u64) as u32, pre.cx.min(c - 1)),
+                    };
+                    if let Some(cell) = pre.grid.get(ty as usize).and_then(|r| r.get(tx as usize)) {
+                        let mut ops = vec![Op::Api(Call::Sgr(gen::sgr_of(&cell.attr)))];
+                        ops.extend(x);
+                        cands.push(Cand { ops });
+                        cx.stats.count("same_rendition_candidates", 1);
+                    }
+                }
                 fan_out(cx, self.id, &self.owns, c, l, &setup, &base, &pre, &cands);
             }
         }
@@ -90,6 +124,40 @@ impl Check for StepCheck {
 }
 
 fn no_enum(_c: &StepCheck, _cx: &mut Ctx) {}
+
+/// Every Unicode scalar value (this worker's share of the 1 112 064) through `mk`, each candidate
+/// judged step by step from the state reached by `setup` on a `c` x `l` screen. Returns true if
+/// the sweep ran to completion within `share` of the time budget.
+pub fn unicode_sweep(chk: &StepCheck, cx: &mut Ctx, c: u32, l: u32, setup: &[Op], label: &str, share: f64, mk: &dyn Fn(char) -> Vec<Cand>) -> bool {
+    let (base, pre) = match reach(cx, c, l, setup) {
+        Some(x) => x,
+        None => return false,
+    };
+    let mut cands: Vec<Cand> = Vec::new();
+    for blk in 0..=0x10u32 {
+        if !cx.begin_group(&format!("unicode {} plane {:x}", label, blk)) {
+            continue;
+        }
+        for cp in (blk << 16)..((blk + 1) << 16) {
+            if !cx.mine(cp as u64) {
+                continue;
+            }
+            if let Some(ch) = char::from_u32(cp) {
+                cands.extend(mk(ch));
+            }
+            if cands.len() >= 2048 {
+                fan_out(cx, chk.id, &chk.owns, c, l, setup, &base, &pre, &cands);
+                cands.clear();
+                if cx.used() > share || cx.out_of_time() {
+                    return false;
+                }
+            }
+        }
+    }
+    fan_out(cx, chk.id, &chk.owns, c, l, setup, &base, &pre, &cands);
+    cx.stats.count("unicode_sweeps_completed", 1);
+    true
+}
 
 fn small_geom(rng: &mut Rng, tier: Tier) -> (u32, u32) {
     gen::pick_geom(rng, tier)
@@ -275,6 +343,25 @@ fn c05_cands(rng: &mut Rng, pre: &Snap, _t: Tier) -> Vec<Cand> {
 }
 
 fn c05_enum(chk: &StepCheck, cx: &mut Ctx) {
+    // more columns than the largest parameter the parser can deliver: blank one-line screens,
+    // cursor near the left edge, sampled parameters (incl. 9998, 9999, absent, 0)
+    for (i, c) in [10001u32, 10050, 12000].iter().enumerate() {
+        if !cx.mine(i as u64 + 1) || !cx.begin_group(&format!("wide {}x1", c)) {
+            continue;
+        }
+        for x in [1u32, 2, 40] {
+            let setup = vec![Op::Api(Call::CursorToColumn(Some(x)))];
+            if let Some((base, pre)) = reach(cx, *c, 1, &setup) {
+                let mut rng = Rng::new(*c as u64 + x as u64);
+                let mut cands = c05_cands_full(false, &mut rng, &pre);
+                for n in [9998u32, 9999] {
+                    cands.extend(Cand::both(Call::CursorForward(Some(n))));
+                    cands.extend(Cand::both(Call::CursorToColumn(Some(n))));
+                }
+                fan_out(cx, chk.id, &chk.owns, *c, 1, &setup, &base, &pre, &cands);
+            }
+        }
+    }
     let geoms: Vec<(u32, u32)> = if cx.quick() {
         vec![(1, 1), (1, 4), (4, 1), (2, 2), (3, 3), (5, 4)]
     } else {
@@ -306,7 +393,17 @@ pub static C05: StepCheck = StepCheck {
     profile: || Profile { no_resize: true, ..Default::default() },
     cands: c05_cands,
     enumerated: c05_enum,
-    geom: small_geom,
+    geom: |rng, tier| {
+        // 3 %: one dimension beyond the largest parameter the parser can deliver (9999), the
+        // other tiny - "clamps to the screen" must not silently mean "clamps at 9999"
+        // (tall only here: rows of three cells are cheap to snapshot; the wide counterpart is a
+        // light-weight enumerated case in c05_enum)
+        if rng.below(100) < 3 {
+            (rng.range(1, 3), rng.range(10001, 10300))
+        } else {
+            small_geom(rng, tier)
+        }
+    },
 };
 
 // -------------------------------------------------------------------------------------------
@@ -352,6 +449,14 @@ fn c04_cands(rng: &mut Rng, _pre: &Snap, _t: Tier) -> Vec<Cand> {
         let s: String = (0..n).map(|_| if rng.below(3) == 0 { *rng.pick(&DRAW_POOL) } else { (b'a' + rng.below(26) as u8) as char }).collect();
         draw_both(&mut v, s);
     }
+    // characters from the class-representative sample of all of Unicode, alone, after a narrow
+    // and after a wide character, and in a short run
+    for _ in 0..6 {
+        let u = gen::uchar(rng);
+        draw_both(&mut v, u.to_string());
+        draw_both(&mut v, format!("a{}b", u));
+        draw_both(&mut v, format!("\u{65e5}{}{}", u, gen::uchar(rng)));
+    }
     // the character set in use changed by a shuffle of shifts and designations right before the
     // draw (any order: designate the slot in use, the slot not in use, shift twice, ...): what is
     // drawn goes through the table that is in use NOW
@@ -379,7 +484,20 @@ pub static C04: StepCheck = StepCheck {
     owns: |c, _| if c.owner() == "C04" { Own::Full } else { Own::No },
     profile: || Profile { wide: 8, irm: 30, pending_wrap: 35, charset8: 20, ..Default::default() },
     cands: c04_cands,
-    enumerated: no_enum,
+    enumerated: |chk, cx| {
+        // every Unicode scalar value drawn between two letters in the middle of a row, and at the
+        // last column followed by a letter (wrap / clip), through the API
+        let done = unicode_sweep(chk, cx, 6, 2, &[Op::Api(Call::CursorPosition(Some(1), Some(2)))], "draw", 0.45, &|ch| {
+            vec![
+                Cand { ops: vec![Op::Api(Call::Draw(format!("a{}b", ch)))] },
+                Cand { ops: vec![Op::Api(Call::CursorPosition(Some(1), Some(6))), Op::Api(Call::Draw(ch.to_string())), Op::Api(Call::Draw("z".into()))] },
+                Cand { ops: vec![Op::Api(Call::Draw("\u{65e5}".into())), Op::Api(Call::Draw(ch.to_string()))] },
+            ]
+        });
+        if done {
+            cx.stats.exhaustive_parts.insert("every Unicode scalar value (1 112 064) drawn through the API between two letters, at the last column followed by a letter, and right after a double-width character, on a 6x2 screen".into());
+        }
+    },
     geom: small_geom,
 };
 
@@ -481,6 +599,20 @@ fn c07_cands_full(full: bool, rng: &mut Rng, pre: &Snap) -> Vec<Cand> {
 }
 
 fn c07_enum(chk: &StepCheck, cx: &mut Ctx) {
+    // whatever a cell holds, an erase makes it a blank: every Unicode scalar value drawn with the
+    // very rendition the erase will use, then erased by EL 2 / ECH / ED 2
+    let done = unicode_sweep(chk, cx, 4, 1, &[], "erase", 0.3, &|ch| {
+        let k = (ch as u32) % 3;
+        let erase = match k {
+            0 => Call::EraseInLine(Some(2)),
+            1 => Call::EraseCharacters(Some(3)),
+            _ => Call::EraseInDisplay(Some(2)),
+        };
+        vec![Cand { ops: vec![Op::Api(Call::Draw(format!("{}q", ch))), Op::Api(Call::CursorPosition(Some(1), Some(1))), Op::Api(erase)] }]
+    });
+    if done {
+        cx.stats.exhaustive_parts.insert("every Unicode scalar value (1 112 064) drawn with the current rendition and then erased (EL 2 / ECH 3 / ED 2 by code point mod 3) on a 4x1 screen".into());
+    }
     let geoms: Vec<(u32, u32)> = if cx.quick() {
         vec![(1, 1), (1, 3), (3, 1), (2, 2), (4, 3), (6, 4)]
     } else {
@@ -653,6 +785,31 @@ fn c08_enum(chk: &StepCheck, cx: &mut Ctx) {
                 }
             }
         }
+        // every code 0..=120 used as if it were a colour introducer: [n, a, b] over a tail
+        // alphabet and [n, 2, r, g, b] - only 38 and 48 may consume what follows, whatever
+        // other terminals define for 58, 59 or anything else
+        for n in 0..=120u32 {
+            let tail = [0u32, 1, 2, 4, 5, 7, 9, 22, 31, 255];
+            for a in tail {
+                for b in tail {
+                    k += 1;
+                    if cx.mine(k) {
+                        sgr_then_draw(&mut cands, vec![n, a, b]);
+                    }
+                }
+            }
+            for r in [0u32, 5, 255] {
+                for g in [0u32, 5, 255] {
+                    for b in [0u32, 1, 255] {
+                        k += 1;
+                        if cx.mine(k) {
+                            sgr_then_draw(&mut cands, vec![n, 2, r, g, b]);
+                            sgr_then_draw(&mut cands, vec![31, n, 5, b, 4]);
+                        }
+                    }
+                }
+            }
+        }
         // all ordered pairs over the documented codes
         for a in SGR_DOC.iter() {
             for b in SGR_DOC.iter() {
@@ -803,6 +960,25 @@ fn c12_enum(chk: &StepCheck, cx: &mut Ctx) {
                         both(&mut cands, Call::SetMode(vec![n], private));
                         both(&mut cands, Call::ResetMode(vec![n], private));
                     }
+                    // "recorded without any effect": with mode n set, the supported modes must
+                    // still act exactly as documented - the 132-column round trip (erase, home,
+                    // geometry, cursor back inside) and an origin-mode / reverse-video switch are
+                    // judged in full after it (first state only: the probe does not depend on it)
+                    if st == 0 {
+                        for private in [false, true] {
+                            cands.push(Cand {
+                                ops: vec![
+                                    Op::Api(Call::SetMode(vec![n], private)),
+                                    Op::Api(Call::SetMode(vec![3], true)),
+                                    Op::Api(Call::Draw("w".into())),
+                                    Op::Api(Call::CursorToColumn(Some(100))),
+                                    Op::Api(Call::ResetMode(vec![3], true)),
+                                    Op::Api(Call::SetMode(vec![6, 5], true)),
+                                    Op::Api(Call::ResetMode(vec![5, 6], true)),
+                                ],
+                            });
+                        }
+                    }
                 }
                 fan_out(cx, chk.id, &chk.owns, c, l, &setup, &base, &pre, &cands);
                 n0 += 500;
@@ -815,7 +991,7 @@ fn c12_enum(chk: &StepCheck, cx: &mut Ctx) {
     }
     if complete {
         cx.stats.exhaustive_parts.insert(format!(
-            "every mode number 0..=9999 x {{private, ANSI}} x {{SM, RM}} x {{API, parser}} from {} zoo states on each of {:?}",
+            "every mode number 0..=9999 x {{private, ANSI}} x {{SM, RM}} x {{API, parser}} from {} zoo states on each of {:?}; with each of them set, the DECCOLM round trip and a DECOM/DECSCNM switch judged in full",
             nstates, geoms
         ));
     }
@@ -1147,6 +1323,36 @@ fn c14_cands(rng: &mut Rng, pre: &Snap, _t: Tier) -> Vec<Cand> {
     v
 }
 
+/// "a stack": more levels than any fixed-size buffer or small counter would hold
+fn c14_enum(chk: &StepCheck, cx: &mut Ctx) {
+    let depth: u32 = if cx.quick() { 4200 } else { 16500 };
+    for (i, via_parser) in [false, true].iter().enumerate() {
+        if !cx.mine(i as u64) || !cx.begin_group(&format!("deep nesting {} parser={}", depth, via_parser)) {
+            continue;
+        }
+        let (c, l) = (7u32, 5u32);
+        if let Some((base, pre)) = reach(cx, c, l, &[]) {
+            let mut ops: Vec<Op> = Vec::new();
+            for k in 0..depth {
+                // every level distinct from its neighbours
+                let (y, x) = (1 + k % l, 1 + (k / l) % c);
+                if *via_parser {
+                    ops.push(Op::Feed(format!("\x1b[{};{}H\x1b[{}m\x1b7", y, x, 31 + k % 7)));
+                } else {
+                    ops.push(Op::Api(Call::CursorPosition(Some(y), Some(x))));
+                    ops.push(Op::Api(Call::Sgr(vec![31 + k % 7])));
+                    ops.push(Op::Api(Call::SaveCursor));
+                }
+            }
+            for _ in 0..depth + 2 {
+                ops.push(if *via_parser { Op::Feed("\x1b8".into()) } else { Op::Api(Call::RestoreCursor) });
+            }
+            fan_out(cx, chk.id, &chk.owns, c, l, &[], &base, &pre, &[Cand { ops }]);
+            cx.stats.exhaustive_parts.insert(format!("save^{} . restore^{} with pairwise distinct levels, API and parser", depth, depth + 2));
+        }
+    }
+}
+
 pub static C14: StepCheck = StepCheck {
     id: "C14",
     rule: "per-step Hoare monitor over histories save^k . ops . restore^m (k,m <= 4; ops: movement, SGR, SO/SI, designation, SM/RM, DECSTBM, resize, drawing, RIS): DECSC must push exactly the observable cursor state (position, rendition, visibility, G0/G1/shift, DECOM, DECAWM) and DECRC must pop it (position clamped into screen and region, one-way re-enabling of DECOM/DECAWM, empty stack: home + DECOM off); every other call must leave the saved stack untouched (clause `saved`), grid/margins/tab stops unchanged by save/restore.",
@@ -1157,7 +1363,7 @@ pub static C14: StepCheck = StepCheck {
     },
     profile: || Profile { saved: 50, charset8: 25, ..Default::default() },
     cands: c14_cands,
-    enumerated: no_enum,
+    enumerated: c14_enum,
     geom: small_geom,
 };
 
